@@ -8,8 +8,56 @@ from vf.engine import Ctx, Facet, InvalidCase, Prop
 from vf.util import close_instance, new_instance, run
 
 NCONN = 3
+
+
+def _in_thread(fn):
+    """Run fn on a fresh thread and wait for it (so the history stays a single statement-level interleaving)."""
+    import threading
+
+    box: list = []
+
+    def work():
+        try:
+            box.append((True, fn()))
+        except BaseException as e:  # noqa: BLE001 - handed back to the caller
+            box.append((False, e))
+
+    t = threading.Thread(target=work)
+    t.start()
+    t.join()
+    ok, v = box[0]
+    if ok:
+        return v
+    raise v
+
+
+class _ThreadCursor:
+    """A cursor obtained with conn.cursor() on a worker thread (as a worker handed the connection would) and only ever used there."""
+
+    def __init__(self, conn):
+        self._conn, self._c = conn, None
+
+    def _cur(self):
+        if self._c is None:
+            self._c = _in_thread(self._conn.cursor)
+        return self._c
+
+    def execute(self, *a, **k):
+        c = self._cur()
+        return _in_thread(lambda: c.execute(*a, **k))
+
+    def executemany(self, *a, **k):
+        c = self._cur()
+        return _in_thread(lambda: c.executemany(*a, **k))
+
+    def fetchall(self):
+        return _in_thread(self._cur().fetchall)
+
+    @property
+    def rowcount(self):
+        return self._cur().rowcount
 _ci = st.integers(0, NCONN - 1)
-_cu = st.integers(0, 1)
+_cu = st.integers(0, 2)  # 2: a cursor of the same connection that is opened and used on another thread
 _slot = st.integers(0, 2)
 
 _op = st.one_of(
@@ -89,7 +137,7 @@ def run_tx(case, ctx: Ctx) -> None:
         else:
             raise InvalidCase()
         ctx.cls(f"context:{how}")
-        curs = [[c.cursor(), c.cursor()] for c in conns]
+        curs = [[c.cursor(), c.cursor(), _ThreadCursor(c)] for c in conns]
         curs[0][0].execute("CREATE TABLE SH (K INT, V INT, OWNER INT)")
         curs[0][0].execute("CREATE TABLE EXISTING (X INT)")
         # per owner: committed partition states over time; pending view; tx flag; history index at BEGIN
@@ -145,6 +193,11 @@ def run_tx(case, ctx: Ctx) -> None:
             if not isinstance(i, int) or not 0 <= i < NCONN:
                 raise InvalidCase()
             label = repr(op)
+            if kind in ("insert", "update", "delete", "fail", "select", "insert_many"):
+                if op[2] not in (0, 1, 2):
+                    raise InvalidCase()
+                if op[2] == 2:
+                    ctx.cls("other-thread-cursor" + ("-in-transaction" if pending[i] is not None else ""))
             if closed[i]:
                 continue
             if kind == "close":
@@ -306,7 +359,7 @@ PROP = Prop(
                 "open), INSERT/UPDATE/DELETE of the connection's own keys (k mod 3), failing statements, SELECTs, COMMIT/ROLLBACK as SQL or "
                 "conn.commit()/rollback() with or without an open transaction, executemany batches, and (rarely) a connection closed with its "
                 "transaction still open. The single-threaded driver makes the history a statement-level "
-                "interleaving. Oracle: committed store + per-connection pending set; a reader sees its own pending writes, and of every other "
+                "interleaving. Oracle: committed store + per-connection pending set; a reader sees its own pending writes through each of its cursors (one of them opened and used on another thread), and of every other "
                 "connection exactly one of the states that connection had committed (the latest if the reader is outside a transaction; any "
                 "since its BEGIN otherwise) - never uncommitted or partial. Non-trivial: two transactions with writes overlap and a third "
                 "party reads between their commits."
